@@ -1,9 +1,9 @@
-\* Map<K,Orswot> qreset: reset_remove with every clock of [Actors -> 0..2] in every state reached (2 replicas, 2 keys, 3 ops, merges)
+\* Map<K,Orswot> qreset: reset_remove with every clock of [Actors -> 0..2] in every state reached (2 replicas, 2 keys, 2 members, 3 ops, merges)
 CONSTANTS
   DescName = "or"
   NReps = 2
   NKeys = 2
-  NMembers = 1
+  NMembers = 2
   NVals = 1
   MaxOps = 3
   Regime = "causal"
